@@ -161,11 +161,15 @@ CHECKS['C03'] = dict(
          'wrong class 6, bad date 8, bad time 9, missing required 1, not-used filled 10; composite 2/5/3), derived from C15 elemErrors_spec: '
          'the reported codes are exactly the spec set of the faulty value; syntax-note kinds from C14 (one error, code 10 for E else 2, at the '
          'note\'s first position); walker: unknown_segment_not_found / unknown_segment_isolated proved, local step lemmas for max-use, loop '
-         'repeat and mandatory-missing and the run-level theorems max_use_exceeded_reported, loop_repeat_reported (needs the decidable sfList; the unrestricted form is proved false on a witness) and mandatory_missing_reported (trigger points as the model has them; the unrestricted form is proved false on the known-finding corner). Tied to /repo by the '
+         'repeat and mandatory-missing and the run-level theorems max_use_exceeded_reported, loop_repeat_reported (needs the decidable sfList; the unrestricted form is proved false on a witness) and mandatory_missing_reported (trigger points as the model has them; the unrestricted form is proved false on the known-finding corner). Pipeline level (validateDoc, the end-to-end model): '
+         'doc_rejects_element_fault, doc_rejects_syntax_fault, doc_rejects_structural_fault (max use, loop repeat, mandatory missing, unknown '
+         'segment) conclude OneFaultRun - verdict false, exactly the implied events at the faulty segment, every other segment matched and '
+         'quiet, the error tree holding exactly that segment node - and doc_fault_other_sets_accepted shows the other sets of the group stay '
+         'accepted (AK5/IK5 A). Tied to /repo by the '
          'fault catalogue applied at sampled positions of generated (multi-set) documents: verdict False, error with the matching code at '
          'the injected segment/element position in the error tree and in AK3/AK4 (IK3/IK4), reported set == implied set when the real '
          'walker matches all other segments as before, other sets stay accepted.',
-    note=COMMON_NOTE + ' PARTIAL: too-many-elements and the error-tree attachment are decided on the real code only.',
+    note=COMMON_NOTE + ' PARTIAL: doc_fault_other_sets_full (faults in documents with several groups / interchanges) is proved for one group; faults on envelope segments and several simultaneous faults are decided on the real code only.',
     technique='Lean 4 proof (detection + isolation lemmas from C15/C14/walker) + fault-injection oracle on the real pipeline',
     design='DESIGN.md §3 C03')
 CHECKS['C05'] = dict(
